@@ -37,7 +37,7 @@ ASSUMPTIONS = [
     "a field value 'changes' when it is replaced by another object that is not an equal value of the same type; node-valued fields must keep the identical object",
     "registry membership may change only as specified for detach / replace (C03's subject) and is not part of the frame",
 ]
-MUST_SEE = ["ops", "frames_checked", "raising_ops", "watched_writes_on_new_nodes", "setattr_rejected", "delattr_rejected", "repo_tests_contract_evaluations", "deserialize_registry_hits", "failing_replace_on_suffix_twin", "transform_returns_existing_node", "transform_rebuilds_equal_node"]
+MUST_SEE = ["digest_size_switches", "ops", "frames_checked", "raising_ops", "watched_writes_on_new_nodes", "setattr_rejected", "delattr_rejected", "repo_tests_contract_evaluations", "deserialize_registry_hits", "failing_replace_on_suffix_twin", "transform_returns_existing_node", "transform_rebuilds_equal_node"]
 CONFIG = {
     "quick": {"shards": 16, "histories": 30, "ops": 35, "watchdog_s": 600},
     "thorough": {"shards": 32, "histories": 200, "ops": 60, "watchdog_s": 3400},
@@ -420,7 +420,12 @@ def histories(ctx, U, state, take_frame, diff_frame):
             with open(os.devnull, "w") as f:
                 Console(file=f, width=100).print(rng.choice(handles))
 
-        ops = [op_traverse, op_tree, op_xpath, op_pattern, op_visit, op_duplicate, op_replace_ok, op_replace_fail, op_detach, op_twins, op_serialize, op_serialize, op_compare, op_rich]
+        def op_config():
+            # a configuration switch between creation and later use of the nodes (existing nodes keep their ids)
+            config.ID_DIGEST_SIZE = rng.choice([s_ for s_ in (4, 8, 16) if s_ != config.ID_DIGEST_SIZE])
+            ctx.count("digest_size_switches")
+
+        ops = [op_config, op_traverse, op_tree, op_xpath, op_pattern, op_visit, op_duplicate, op_replace_ok, op_replace_fail, op_detach, op_twins, op_serialize, op_serialize, op_compare, op_rich]
         snap_extra = {}
         for step in range(ctx.params["ops"]):
             op = rng.choice(ops)
@@ -459,6 +464,7 @@ def histories(ctx, U, state, take_frame, diff_frame):
             if len(handles) > 14:
                 del handles[: len(handles) - 10]
         handles.clear()
+        config.ID_DIGEST_SIZE = 8
 
 
 def repo_tests_under_contracts(ctx):
